@@ -197,7 +197,7 @@ def main():
             thorough_cmd=f'./check {pid} --tier thorough',
             evidence_file=f'/verif/evidence/{pid}.json',
             replay_cmd_template=f'./check {pid} --replay {{path}}',
-            engine='pyvc',
+            engine=c.get('engine', 'pyvc'),
             level_claimed=dict(category=c['category'], text=c['text'], design_ref=c['design_ref']),
             level_note=c['note'],
             technique=c['technique'],
@@ -207,11 +207,19 @@ def main():
     man = dict(
         version=1,
         setup_cmd='true',
-        hooks=dict(guard='DEPCCG_VERIF', enable='no hook is needed by the committed checks: they read /repo\'s working tree (python sources via ast, parsing.h via clang/g++) on every run',
-                   baseline_off_cmd='cd /repo && /venv/bin/python -m pytest -ra -q -p no:cacheprovider --timeout=900 --continue-on-collection-errors',
-                   source_commits=[], add_only=True),
-        engines=[dict(name='pyvc', path='/verif/vc', serves_properties=sorted(CHECKS),
-                      kind_free_text='verification-condition generator over the python ast of the real source + z3/cvc5 (contract-based deductive verification)')],
+        hooks=dict(guard='DEPCCG_VERIF',
+                   enable=('the only hook is in depccg/parsing.h (pop callback, inactive unless DEPCCG_VERIF is set and a callback is installed); the checks compile the working tree\'s '
+                           'parsing.h with g++ themselves (vc/harness.py) and set DEPCCG_VERIF=1 for the bounded C01 run; the deductive obligations do not use it'),
+                   baseline_off_cmd='cd /repo && env -u DEPCCG_VERIF /venv/bin/python -m pytest -ra -q -p no:cacheprovider --timeout=900 --continue-on-collection-errors',
+                   source_commits=['0b0a8cf'], add_only=True),
+        engines=[dict(name='pyvc', path='/verif/vc/pyvc.py', serves_properties=['C03', 'C04', 'C05', 'C06', 'C11', 'C12', 'C13', 'C14', 'C17'],
+                      kind_free_text='verification-condition generator (symbolic execution of the python ast of the real source, sidecar contracts in /verif/contracts) + z3/cvc5'),
+                 dict(name='cxxvc', path='/verif/vc/cxxvc.py', serves_properties=['C01', 'C02', 'C09', 'C10', 'C11', 'C12', 'C16'],
+                      kind_free_text='verification-condition generator over clang\'s JSON AST of depccg/parsing.h (invariant rule over the search loop) + z3/cvc5'),
+                 dict(name='frame', path='/verif/contracts/frame.py', serves_properties=['C18', 'C14'],
+                      kind_free_text='frame (modifies-nothing) obligations per store site, decided by a flow-sensitive points-to abstraction of the real ast'),
+                 dict(name='harness', path='/verif/vc/harness.py', serves_properties=['C01', 'C02', 'C07', 'C08', 'C09', 'C10', 'C11', 'C12', 'C15', 'C16', 'C17', 'C18', 'C19', 'C20'],
+                      kind_free_text='bounded stand-ins and replays on the real code: parsing.h compiled by g++ + DePyx text of parsing.pyx via ctypes; real printers/readers with spec decoders')],
         checks=checks,
         notes='exit codes: 0 held, 1 violation (VIOLATION line), 2 undecided (never a violation), 3 checker error',
         not_applicable=na,
